@@ -15,9 +15,10 @@ server receive paths and the client receive path.
 import glob
 import json
 import os
+import re
 
-from lib import codecfam, codecgen, oracle, tlc
-from lib.core import Inconclusive
+from lib import codecfam, codecgen, gobuild, oracle, tlc
+from lib.core import Inconclusive, VERIF, sh
 
 ALLOC_K, ALLOC_C = 1024, 65536
 
@@ -29,7 +30,8 @@ def run(ctx):
         "the worker runs under RLIMIT_AS = 6 GiB: an allocation that cannot be satisfied there kills it and is recorded as out-of-memory",
         "inputs larger than 64 KiB are judged on the physical outcome only (no reference prediction)",
     ]
-    exe, schema = codecfam.prepare(ctx)
+    exe, schema = codecfam.prepare(ctx, idl_files=[os.path.join(VERIF, "idl", "Call.tars")])   # Call.tars includes Vt.tars
+    callexe = gobuild.build(ctx, "calldrive")
     nsh = 14
     from concurrent.futures import ThreadPoolExecutor
     ex = ThreadPoolExecutor(max_workers=2)
@@ -38,6 +40,9 @@ def run(ctx):
     f2 = ex.submit(codecfam.run_driver, ctx, exe, "hostile", "host",
                    ["-shards", str(nsh), "-alen", str(ctx.pick(2, 3)), "-rand", str(ctx.pick(1500, 20000)),
                     "-nest", str(ctx.pick(200000, 10 * 1024 * 1024))], 3400)
+    # network receive paths: hostile frames / datagrams against real server children (tcp and udp), liveness probed
+    netout = os.path.join(ctx.work, "net.ndjson")
+    f3 = ex.submit(sh, [callexe, "-mode", "hostile", "-seed", str(ctx.seed), "-hostile", str(ctx.pick(300, 6000)), "-out", netout], None, None, 3400)
     d1, last1 = f1.result()
     d2, last2 = f2.result()
     shards = sorted(glob.glob(os.path.join(d1, "mut_*.ndjson"))) + sorted(glob.glob(os.path.join(d2, "mut_*.ndjson")))
@@ -72,6 +77,18 @@ def run(ctx):
                         "%s: %s on %s (%d bytes)" % (r["s"], r["panic"][:160], r["desc"][:80], r["blen"]), {"record": r})
         elif r["k"] == "big" and r["alloc"] > ALLOC_K * r["blen"] + ALLOC_C:
             ctx.violate("C05:alloc:%s:%s" % (r["s"], r["cls"]), "%s allocated %d bytes on %s" % (r["s"], r["alloc"], r["desc"]), {"record": r})
+    rc3, so3, se3 = f3.result()
+    net_total, net_deaths = [int(x) for x in so3.split()[-2:]]
+    net_by_entry = {}
+    for line in open(netout):
+        r = json.loads(line)
+        if r["k"] == "net-summary":
+            net_by_entry[r["entry"]] = r["blen"]
+        elif r["died"]:
+            cls = "hostile-arguments-for-a-function" if r["desc"].startswith("hostile arguments") else r["desc"].split(" (")[0].replace(" ", "-")
+            cls = re.sub(r"\d+", "N", cls)
+            ctx.violate("C05:process-exit:%s:%s" % (r["entry"], cls),
+                        "one packet ended the %s process: %s (%d bytes)" % (r["entry"], r["desc"], r["blen"]), {"record": r})
     recs = [r for r in codecfam.first_records(shards[:2], 300) if r["k"] == "dec" and r["panic"] == ""][:100]
 
     def mutate(i, r):
@@ -89,14 +106,17 @@ def run(ctx):
     n2, nd2, deaths2, nb2, cnt2 = last2.split(" ", 4)
     ctx.coverage = {
         "states": states, "transitions": gen,
-        "traces_validated_against_impl": total + nbig,
+        "traces_validated_against_impl": total + nbig + net_total,
+        "network_inputs": net_by_entry, "network_process_exits": net_deaths,
         "samples": codecfam.first_records(shards[-2:], 1, lambda r: r["cls"] == "alpha" and len(r["bytes"]) == 2) + big_samples,
         "evaluations": total + nbig, "distinct_nontrivial": int(nd1) + int(nd2),
         "rule": "see module docstring; distinct = distinct (struct, bytes) inputs; exhaustive for the alphabet strings up to length %d" % ctx.pick(2, 3),
         "corpus_classes": {"mutants": cnt1, "hostile": cnt2}, "worker_deaths": int(deaths1) + int(deaths2),
         "not_judged_by_reference": nbig, "value_disagreements_left_to_C04_C06": class_disagree,
         "selftest_corrupted_records": st, "exhaustive": False,
-        "entry_points": ["ReadFrom of %d generated struct types" % len(schema["order"]), "tup.UniAttribute.Decode"],
+        "entry_points": ["ReadFrom of %d generated struct types" % len(schema["order"]), "tup.UniAttribute.Decode",
+                         "tcp server receive path (framing -> Protocol.Invoke -> generated dispatcher), real process",
+                         "udp server receive path, real process"],
     }
 
 
